@@ -92,11 +92,15 @@ type FaultPlan struct {
 	Panic    bool // panic instead of returning an error
 	Calls    []string
 	Disabled bool
+	InHook   int // > 0 while a hook message that reaches the opchild keeper is executing
 }
 
 func (f *FaultPlan) hit(name string) error {
 	if f == nil || f.Disabled {
 		return nil
+	}
+	if f.InHook > 0 {
+		name = "hook:" + name
 	}
 	f.Count++
 	f.Calls = append(f.Calls, name)
@@ -149,6 +153,61 @@ func (b faultBank) SetDenomMetaData(ctx context.Context, denomMetaData banktypes
 		panic(err)
 	}
 	b.Keeper.SetDenomMetaData(ctx, denomMetaData)
+}
+
+// faultBankMsgServer wraps the bank msg server that executes hook messages (the SDK's bank msg
+// server insists on a BaseKeeper, so the fault is injected at the handler boundary): the fault
+// stands for an error / panic of a keeper call made by the hook's MsgSend.
+type faultBankMsgServer struct {
+	banktypes.MsgServer
+	f *FaultPlan
+}
+
+func (m faultBankMsgServer) Send(ctx context.Context, msg *banktypes.MsgSend) (*banktypes.MsgSendResponse, error) {
+	if err := m.f.hit("SendCoins"); err != nil {
+		return nil, err
+	}
+	return m.MsgServer.Send(ctx, msg)
+}
+
+// faultOpchildMsgServer marks the keeper calls made by a hook's MsgInitiateTokenWithdrawal
+// (they reach the same wrapped bank keeper as the handler's own reclaim / burn, but run inside
+// handleBridgeHook's cache + recover)
+type faultOpchildMsgServer struct {
+	opchildtypes.MsgServer
+	f *FaultPlan
+}
+
+func (m faultOpchildMsgServer) InitiateTokenWithdrawal(ctx context.Context, msg *opchildtypes.MsgInitiateTokenWithdrawal) (*opchildtypes.MsgInitiateTokenWithdrawalResponse, error) {
+	m.f.InHook++
+	defer func() { m.f.InHook-- }()
+	return m.MsgServer.InitiateTokenWithdrawal(ctx, msg)
+}
+
+// faultAcct wraps the account keeper handed to the opchild keeper (zero-amount deposit path).
+// None of these calls returns an error: an injected fault can only be a panic.
+type faultAcct struct {
+	authkeeper.AccountKeeper
+	f *FaultPlan
+}
+
+func (a faultAcct) HasAccount(ctx context.Context, addr sdk.AccAddress) bool {
+	if err := a.f.hit("HasAccount"); err != nil {
+		panic(err)
+	}
+	return a.AccountKeeper.HasAccount(ctx, addr)
+}
+func (a faultAcct) NewAccountWithAddress(ctx context.Context, addr sdk.AccAddress) sdk.AccountI {
+	if err := a.f.hit("NewAccountWithAddress"); err != nil {
+		panic(err)
+	}
+	return a.AccountKeeper.NewAccountWithAddress(ctx, addr)
+}
+func (a faultAcct) SetAccount(ctx context.Context, acc sdk.AccountI) {
+	if err := a.f.hit("SetAccount"); err != nil {
+		panic(err)
+	}
+	a.AccountKeeper.SetAccount(ctx, acc)
 }
 
 type L2Env struct {
@@ -231,17 +290,26 @@ func NewL2Env(seed uint64, nUsers int, withFaults bool) *L2Env {
 	}
 	router := baseapp.NewMsgServiceRouter()
 	router.SetInterfaceRegistry(enc.InterfaceRegistry)
-	banktypes.RegisterMsgServer(router, bankkeeper.NewMsgServerImpl(bk))
+	var faultPlan *FaultPlan
+	if withFaults {
+		// hook messages (bank MsgSend) reach the bank keeper through the fault wrapper too
+		faultPlan = &FaultPlan{Disabled: true}
+		banktypes.RegisterMsgServer(router, faultBankMsgServer{bankkeeper.NewMsgServerImpl(bk), faultPlan})
+	} else {
+		banktypes.RegisterMsgServer(router, bankkeeper.NewMsgServerImpl(bk))
+	}
 	ok := oraclekeeper.NewKeeper(runtime.NewKVStoreService(keys[oracletypes.StoreKey]), appCodec, nil, authtypes.NewModuleAddress(opchildtypes.ModuleName))
 
 	env := &L2Env{MS: ms, Enc: enc, AK: ak, BK: bk, OK: &ok, Router: router, Auth: authority,
 		Table: map[string]uint64{}, Modules: map[string]uint64{}, ModAddr: map[uint64]sdk.AccAddress{}, Keys: keys}
 	var bankForKeeper opchildtypes.BankKeeper = bk
+	var acctForKeeper opchildtypes.AccountKeeper = ak
 	if withFaults {
-		env.Fault = &FaultPlan{Disabled: true}
+		env.Fault = faultPlan
 		bankForKeeper = faultBank{bk, env.Fault}
+		acctForKeeper = faultAcct{ak, env.Fault}
 	}
-	k := opchildkeeper.NewKeeper(appCodec, runtime.NewKVStoreService(keys[opchildtypes.StoreKey]), ak, bankForKeeper, &ok,
+	k := opchildkeeper.NewKeeper(appCodec, runtime.NewKVStoreService(keys[opchildtypes.StoreKey]), acctForKeeper, bankForKeeper, &ok,
 		sdk.ChainAnteDecorators(
 			authante.NewSetPubKeyDecorator(ak),
 			authante.NewValidateSigCountDecorator(ak),
@@ -256,7 +324,12 @@ func NewL2Env(seed uint64, nUsers int, withFaults bool) *L2Env {
 		ctx.Logger())
 	env.K = k
 	env.Msg = opchildkeeper.NewMsgServerImpl(k)
-	opchildtypes.RegisterMsgServer(router, env.Msg)
+	if withFaults {
+		// router = messages executed by hooks (the harness calls env.Msg directly)
+		opchildtypes.RegisterMsgServer(router, faultOpchildMsgServer{env.Msg, env.Fault})
+	} else {
+		opchildtypes.RegisterMsgServer(router, env.Msg)
+	}
 
 	// users, sorted by address bytes
 	for i := 0; i < nUsers; i++ {
